@@ -1,5 +1,6 @@
 SPECIFICATION Spec
 CONSTANTS
+  Prepared = FALSE
   MaxLen = 24
   RenderReleasesRoot = FALSE
 INVARIANTS
